@@ -1,0 +1,19 @@
+package internal
+
+import (
+	"os"
+)
+
+// Move the file at source to dest. A plain file is renamed. A symbolic link
+// is not moved as a link - in another directory it would point somewhere
+// else, at nothing, or at itself -: the file it stands for is copied to dest,
+// and the link removed.
+func Move(source, dest string) error {
+	if info, err := os.Lstat(source); err == nil && info.Mode()&os.ModeSymlink != 0 {
+		if err := Copy(source, dest); err != nil {
+			return err
+		}
+		return os.Remove(source)
+	}
+	return os.Rename(source, dest)
+}
